@@ -55,11 +55,11 @@ func (a *Attestation) HashTreeRoot(spec *common.Spec, hFn tree.HashFn) common.Ro
 type Attestations []Attestation
 
 func (a *Attestations) Deserialize(spec *common.Spec, dr *codec.DecodingReader) error {
-	return dr.List(func() codec.Deserializable {
+	return common.ReadVariableSizeElemList(dr, func() codec.Deserializable {
 		i := len(*a)
 		*a = append(*a, Attestation{})
 		return spec.Wrap(&((*a)[i]))
-	}, 0, uint64(spec.MAX_ATTESTATIONS))
+	}, uint64(spec.MAX_ATTESTATIONS))
 }
 
 func (a Attestations) Serialize(spec *common.Spec, w *codec.EncodingWriter) error {
